@@ -79,3 +79,22 @@ Proof.
     + rewrite L0 in Hc. injection Hc as <-. apply (merge_all_covers_inputs g acc m Ha Hg Hu Hfin Hm). left. exact Hx.
     + rewrite (Lg d s Hs) in Hc. injection Hc as <-. apply (merge_all_covers_inputs g acc m Ha Hg Hu Hfin Hm). right. exists d, s. split; assumption.
 Qed.
+
+(* ---- chaining groups: what one group's plan leaves untouched, and what it leaves behind ---- *)
+Lemma unlinks_frame dels : forall f q, ~ In q dels -> flookup (apply_effs f (plan_effs (map PUnlink dels))) q = flookup f q.
+Proof.
+  induction dels as [|d r IH]; intros f q Hq; [reflexivity|]. cbn [map plan_effs flat_map pstep_effs app apply_effs fold_left apply_eff].
+  fold (plan_effs (map PUnlink r)). fold (apply_effs (fremove f d) (plan_effs (map PUnlink r))).
+  rewrite IH by (intro H; apply Hq; right; exact H). rewrite flookup_remove.
+  destruct (name_eqb d q) eqn:E; [apply name_eqb_eq in E; subst; exfalso; apply Hq; left; reflexivity | reflexivity].
+Qed.
+Theorem group_plan_frame (final : fname -> bool) f t mname m dels : final t = false ->
+  let f' := apply_effs f (plan_effs (PWrite t mname [m] :: map PUnlink dels)) in
+  (~ In mname dels -> flookup f' mname = Some m) /\
+  (forall q, q <> t -> q <> mname -> ~ In q dels -> flookup f' q = flookup f q).
+Proof.
+  intros Ft f'. unfold f'. cbn [plan_effs flat_map pstep_effs]. fold (plan_effs (map PUnlink dels)). rewrite apply_effs_app.
+  destruct (write_done final f t mname [m] Ft) as [A B]. cbn [concat] in A. rewrite app_nil_r in A. split.
+  - intro Hn. rewrite unlinks_frame by exact Hn. exact A.
+  - intros q Q1 Q2 Q3. rewrite unlinks_frame by exact Q3. apply B; assumption.
+Qed.
